@@ -12,6 +12,16 @@ def run(ctx):
     res = {}
     for cfgname in ("B", "A"):
         b = ctx.build("plain", cfgname); exe = ctx.harness(b)
+        if cfgname == "B" and ctx.quick:
+            # the quick tier always holds the elements at which the set of available primitives changes (first / last element with each CK probability, yield,
+            # Auger yield, jump factor, edge and partial cross section, and their outer neighbours), then seeded elements up to a multiple of the core count
+            bo = os.path.join(ctx.scratch, "bounds.ndjson"); ctx.run_harness(exe, ["c08", "bounds"], bo)
+            edge_z = set()
+            for l in open(bo):
+                ev = json.loads(l); edge_z |= {z for z in (ev["lo"] - 1, ev["lo"], ev["hi"], ev["hi"] + 1) if 1 <= z <= 120}
+            zs = sorted(set(zs) | edge_z)
+            rest = [z for z in range(1, 110) if z not in zs]; rnd.shuffle(rest)
+            zs = sorted(zs + rest[:(-len(zs)) % NCPU])
         facts = ctx.facts(b, ["macros", "names", "scalar", "compton", "kissel"], sub="facts" + cfgname)
         zz = zs if cfgname == "B" else [0, 1, 26, 82, 100, 121]
         def one(i):
